@@ -389,6 +389,30 @@ def check_redefinition_guard(ctx: Ctx, rule: str):
     regs = [n for n in tf.node.body if isinstance(n, (ast.Assign, ast.AnnAssign)) and isinstance(n.value, (ast.Dict, ast.Call)) and norm(n.value) in ("{}", "dict()")]
     reg_names = {norm(n.targets[0] if isinstance(n, ast.Assign) else n.target) for n in regs if n.lineno < outer.lineno}
     sd = [c for c in ast.walk(outer) if isinstance(c, ast.Call) and isinstance(c.func, ast.Attribute) and c.func.attr == "setdefault" and len(c.args) == 2 and norm(c.args[0]).endswith(".name")]
+    # the same check written with get + store: `if reg.get(a.name, a) is not a: raise ... else: reg[a.name] = a`
+    gets = [c for c in ast.walk(outer) if isinstance(c, ast.Call) and isinstance(c.func, ast.Attribute) and c.func.attr == "get" and len(c.args) == 2 and norm(c.args[0]).endswith(".name") and norm(c.args[0]) == norm(c.args[1]) + ".name" and norm(c.func.value) in reg_names]
+    if not sd and gets:
+        g0 = gets[0]
+        reg_, atom_ = norm(g0.func.value), norm(g0.args[1])
+        stores_ = [n for n in ast.walk(outer) if isinstance(n, ast.Assign) and len(n.targets) == 1 and norm(n.targets[0]) == f"{reg_}[{atom_}.name]" and norm(n.value) == atom_]
+        raises_ = [n for n in ast.walk(outer) if isinstance(n, ast.Raise) and "DuplicateSymbolError" in norm(n)]
+        chain_ = (common.cond_chain(tf.node, raises_[0]) or []) if raises_ else []
+        conds_ = [c.replace(" ", "") for c, pol in chain_ if pol and not c.startswith("loop")]
+        conds_all_ = [c for c, pol in chain_ if not c.startswith("loop")]
+        gtxt = norm(g0).replace(" ", "")
+        guard_ok = any(c in (f"{gtxt}isnot{atom_}", f"{atom_}isnot{gtxt}") for c in conds_) and len(conds_all_) == 1
+        inner_regs_ = [n for n in ast.walk(outer) if isinstance(n, (ast.Assign, ast.AnnAssign)) and n.value is not None and norm(n.value) in ("{}", "dict()")]
+        ctx.check(not inner_regs_, rule, tf.key("registry-scope"), "one registry of first definitions for the whole text", "TreeToODE.ode: the registry of first definitions is re-created inside the loop over the lines (a redefinition in another block would not be seen)", tf.where(outer))
+        ctx.check(guard_ok and bool(stores_), rule, tf.key("redefinition-raises"), "any second definition of a name raises DuplicateSymbolError", f"TreeToODE.ode does not raise DuplicateSymbolError for every second definition of a name (`{reg_}.get({atom_}.name, {atom_}) is not {atom_}`, first definitions stored): two definitions that compare equal are merged silently in the component sets, or duplicates survive", tf.where(raises_[0]) if raises_ else tf.where())
+        adds_ = [c for c in ast.walk(outer) if isinstance(c, ast.Call) and isinstance(c.func, ast.Attribute) and c.func.attr == "add"]
+        ctx.check(bool(adds_) and bool(raises_) and raises_[0].lineno < adds_[0].lineno, rule, tf.key("check-before-merge"), "the check runs for every atom before it is added to a set", "TreeToODE.ode: the redefinition check does not precede the insertion into the component sets", tf.where())
+        return
+    if not sd and not [n for n in ast.walk(outer) if isinstance(n, ast.Raise) and "DuplicateSymbolError" in norm(n)]:
+        ctx.fail(rule, tf.key("redefinition-raises"), "TreeToODE.ode never raises DuplicateSymbolError while it registers the atoms: a second definition of a name is merged silently in the component sets, or survives", tf.where())
+        return
+    if not sd:
+        ctx.undecided(rule, tf.key("redefinition-raises"), "TreeToODE.ode: the registry of first definitions is not kept with setdefault / get-and-store; how a second definition is detected is not understood", tf.where())
+        return
     ok_reg = bool(sd) and norm(sd[0].func.value) in reg_names
     inner_regs = [n for n in ast.walk(outer) if isinstance(n, (ast.Assign, ast.AnnAssign)) and n.value is not None and norm(n.value) in ("{}", "dict()")]
     ctx.check(ok_reg and not inner_regs, rule, tf.key("registry-scope"), "one registry of first definitions for the whole text", "TreeToODE.ode: the registry of first definitions is not a single dict created before the loop over the lines (a redefinition in another block would not be seen)", tf.where(outer))
